@@ -316,6 +316,11 @@ class TypedNode(Node):
         else:
             node = factory(kind, child, parent=self, data_id=data_id, node_id=node_id)
 
+        if deep and source_node:
+            # Copy the descendants before the new node is linked, so the copy
+            # terminates if this node is part of the source branch
+            node._add_from(source_node)
+
         children = self._children
         if children is None:
             self._children = [node]
@@ -326,9 +331,6 @@ class TypedNode(Node):
             children.insert(idx, node)
         else:
             children.append(node)
-
-        if deep and source_node:
-            node._add_from(source_node)
 
         return node
 
